@@ -30,6 +30,7 @@ fn streams(t: Tier) -> Vec<StreamDef> {
         st("per_type", t.n(38 * 41 * 8, 38 * 41 * 64, 60, 38 * 41 * 8), true),
         st("big", t.n(320, 8000, 0, 320), false),
         st("payload_lengths", t.n(40 * 1018, 40 * 1018, 60, 40 * 1018), true),
+        st("vendor_grid", t.n(wire::VENDOR_GRID, wire::VENDOR_GRID, 40, wire::VENDOR_GRID), true),
     ]
 }
 
@@ -441,6 +442,12 @@ fn run(ctx: &mut Ctx) {
         "small_exhaustive" => {
             let b = super::c01::small_input(ctx.idx);
             judge(ctx, &b, "small");
+        }
+        "vendor_grid" => {
+            let idx = ctx.idx;
+            let b = wire::vendor_grid_case(&mut ctx.rng, idx);
+            judge(ctx, &b, "vendor_grid");
+            judge_avps(ctx, &b[12..]);
         }
         "payload_lengths" => {
             // every attribute (39 assigned + one unassigned) x every payload length 0..=1017: fixed
